@@ -35,6 +35,16 @@ def specStep (R : Nat) (m : SMap) : Op → SMap
 
 def specRun (R : Nat) (ops : List Op) : SMap := ops.foldl (specStep R) []
 
+/-- the abstract map after an operation that ended in its `nth` lock-free `String()` call (see `stepFault`) -/
+def faultDel (m : SMap) (r : String) (nth : Nat) : SMap := if nth ≤ 1 then m else m.del r
+
+def specStepFault (m : SMap) (op : Op) (nth : Nat) : SMap :=
+  match op with
+  | .remove _ => m
+  | .add n => faultDel m n.repr nth
+  | .addR n _ => faultDel m n.repr nth
+  | .addW n _ => faultDel m n.repr nth
+
 /-- the repr an operation is about -/
 def Op.repr : Op → String
   | .add n => n.repr
